@@ -307,7 +307,5 @@ func checkC01(res *Result, fo *fedOp) {
 	}
 }
 
-func checkC02(env *fedEnv, res *Result, ops []*fedOp) {}
-func checkC12(env *fedEnv, res *Result, ops []*fedOp) {}
 
 var _ = sort.Strings
